@@ -127,7 +127,8 @@ extern "C" void h_repeat() {
     vpf::FakeLoop loop; root_finish = 0; root_result = -1; r_round = 0; r_underway_at_start = 0;
     bool is_loop = nondet_bool();
     unsigned mode = nondet_uchar(); VP_ASSUME(mode <= 2);
-    unsigned times = nondet_uchar(); VP_ASSUME(times >= 1 && times <= 3); times = (unsigned)vp_concretize(times);
+    unsigned times = nondet_uchar(); VP_ASSUME(times >= 1 && times <= 3);       // (times == 0 means "forever" in this library: the repository's own test RepeatAction.FunctionActionForeverNoBreak relies on it)
+    times = (unsigned)vp_concretize(times);
     for (int i = 0; i <= RMAX; i++) { r_out[i] = nondet_bool() ? O_SUCC : O_FAIL; r_inline[i] = nondet_bool(); }
     if (is_loop) { VP_ASSUME(mode != 0); r_out[RMAX] = (mode == 1) ? O_FAIL : O_SUCC; }       // the loop is guaranteed to end within RMAX+1 rounds (mode 1 = until fail, 2 = until succ)
     r_leaf = new DummyAction(loop);
@@ -140,6 +141,7 @@ extern "C" void h_repeat() {
         if (r_leaf->state() == Action::State::kRunning) r_deliver();                         // late completion of the current round
         for (int k = 0; k < 8 && !loop.next_q.empty(); k++) loop.pass();
     }
+    for (int k = 0; k < 8 && !loop.next_q.empty(); k++) loop.pass();                         // the finish notification is delivered by the loop
     // reference
     int exp_rounds = 0, exp_result = 1;
     if (is_loop) { for (int i = 0; i <= RMAX; i++) { exp_rounds++; bool ok = r_out[i] == O_SUCC; if ((mode == 2 && ok) || (mode == 1 && !ok)) { exp_result = ok; break; } } }
